@@ -595,3 +595,13 @@ seed('c04-minimax-skips-end-state', 'C04', [(MMO, "    if (this->isCostBetterTha
 seed('c04-minimax-combine-better', 'C04', [(MMO, "    return this->isCostBetterThan(c1, c2) ? c2 : c1;", "    return this->isCostBetterThan(c1, c2) ? c1 : c2;")], 'R04o')
 seed('c04-pathlength-heuristic-doubled', 'C04', [(PLO, "    return motionCost(s1, s2);\n}\n\nompl::base::Cost ompl::base::PathLengthOptimizationObjective::motionCostBestEstimate", "    return Cost(2.0 * motionCost(s1, s2).value());\n}\n\nompl::base::Cost ompl::base::PathLengthOptimizationObjective::motionCostBestEstimate")], 'R04o')
 seed('c04-n-sci-total-via-local', 'C04', [(SCIO, "                std::swap(test1, test2);\n                prevStateCost = nextStateCost;", "                prevStateCost = nextStateCost;\n                std::swap(test1, test2);")], None)
+# R17e: hybridization
+PHYB = 'src/ompl/geometric/src/PathHybridization.cpp'
+seed('c17-hybrid-chain-skips-first-edge', 'C17', [(PHYB, "    for (std::size_t j = 1; j < pi.states_.size(); ++j)\n    {\n        Vertex v1 = boost::add_vertex(g_);", "    for (std::size_t j = 2; j < pi.states_.size(); ++j)\n    {\n        Vertex v1 = boost::add_vertex(g_);")], 'R17e')
+seed('c17-hybrid-weight-from-first-state', 'C17', [(PHYB, "        base::Cost weight = obj_->motionCost(pi.states_[j - 1], pi.states_[j]);", "        base::Cost weight = obj_->motionCost(pi.states_[0], pi.states_[j]);")], 'R17e')
+seed('c17-hybrid-chain-not-advanced', 'C17', [(PHYB, "        pi.vertices_.push_back(v1);\n        v0 = v1;", "        pi.vertices_.push_back(v1);")], 'R17e')
+seed('c17-hybrid-no-goal-edge', 'C17', [(PHYB, "    boost::add_edge(v0, goal_, prop0, g_);\n    pi.cost_ = cost;", "    pi.cost_ = cost;")], 'R17e')
+seed('c17-hybrid-cross-edge-unchecked', 'C17', [(PHYB, "    if (si_->checkMotion(p.states_[indexP], q.states_[indexQ]))\n    {", "    if (si_->checkMotion(p.states_[indexP], q.states_[indexQ]) || indexP == indexQ)\n    {")], 'R17e')
+seed('c17-hybrid-cross-edge-wrong-vertex', 'C17', [(PHYB, "        boost::add_edge(p.vertices_[indexP], q.vertices_[indexQ], properties, g_);", "        boost::add_edge(p.vertices_[indexQ], q.vertices_[indexQ], properties, g_);")], 'R17e')
+seed('c17-hybrid-search-from-goal', 'C17', [(PHYB, "        g_, root_,\n        boost::predecessor_map(prev)", "        g_, goal_,\n        boost::predecessor_map(prev)")], 'R17e')
+seed('c17-n-hybrid-cost-fold-reordered', 'C17', [(PHYB, "        boost::add_edge(v0, v1, properties, g_);\n        cost = obj_->combineCosts(cost, weight);", "        cost = obj_->combineCosts(cost, weight);\n        boost::add_edge(v0, v1, properties, g_);")], None)
